@@ -76,8 +76,8 @@ type LogEntry struct {
 
 // World owns the logical clock, the virtual time, roles, pauses and the control-point log.
 type World struct {
-	stamp int64
-	vnow  int64
+	stamp atomic.Int64
+	vnow  atomic.Int64
 
 	mu      sync.Mutex
 	roles   map[int64]string
@@ -85,7 +85,7 @@ type World struct {
 	Log     []LogEntry
 	KeepLog bool
 	sig     uint64
-	cpCount int64
+	cpCount atomic.Int64
 	// Perturb returns how many times to yield at this control point (nil: never).
 	Perturb func(cp, role string) int
 	// useRoles makes control points resolve the goroutine's role (costs a stack parse per control point).
@@ -121,16 +121,16 @@ func NewWorld() *World {
 }
 
 // Tick advances and returns the logical clock.
-func (w *World) Tick() int64 { return atomic.AddInt64(&w.stamp, 1) }
+func (w *World) Tick() int64 { return w.stamp.Add(1) }
 
 // Stamp reads the logical clock.
-func (w *World) Stamp() int64 { return atomic.LoadInt64(&w.stamp) }
+func (w *World) Stamp() int64 { return w.stamp.Load() }
 
 // Now is the virtual time.
-func (w *World) Now() time.Time { return w.Base.Add(time.Duration(atomic.LoadInt64(&w.vnow))) }
+func (w *World) Now() time.Time { return w.Base.Add(time.Duration(w.vnow.Load())) }
 
 // VNow is the virtual time in ns since Epoch.
-func (w *World) VNow() int64 { return atomic.LoadInt64(&w.vnow) }
+func (w *World) VNow() int64 { return w.vnow.Load() }
 
 // SetNow sets the virtual time (ns since Epoch).
 func (w *World) SetNow(ns int64) {
@@ -142,7 +142,7 @@ func (w *World) SetNow(ns int64) {
 		w.nows[ns] = struct{}{}
 	}
 	w.mu.Unlock()
-	atomic.StoreInt64(&w.vnow, ns)
+	w.vnow.Store(ns)
 }
 
 // SetRole names the calling goroutine.
@@ -181,11 +181,11 @@ func (w *World) LogCopy() []LogEntry {
 }
 
 // CPCount is the number of control-point events so far.
-func (w *World) CPCount() int64 { return atomic.LoadInt64(&w.cpCount) }
+func (w *World) CPCount() int64 { return w.cpCount.Load() }
 
 // CP is a control point: called by the sim components between the client's critical sections.
 func (w *World) CP(name string) {
-	atomic.AddInt64(&w.cpCount, 1)
+	w.cpCount.Add(1)
 	useRoles := atomic.LoadInt32(&w.useRoles) == 1
 	if !useRoles && !w.KeepLog && w.Perturb == nil {
 		return
